@@ -112,6 +112,7 @@ struct Prog {
   // statistics
   int n_static_ops = 0, n_calls = 0, n_switch = 0, n_loops = 0, n_irr = 0, n_if = 0, n_retif = 0, n_fixed = 0, n_partial = 0, n_idiom = 0,
       n_vec = 0, n_mask = 0, n_mem = 0, max_depth = 0, n_excluded = 0;
+  int n_excl[16] = {};
   bool folded(int i) const { return ((i * 5 + foldsel) & 7) < foldfrac; }
 };
 
@@ -168,8 +169,8 @@ const char* const kHName[] = { "alu", "unary", "imul", "lea", "movx", "shift_imm
 // Trigger shapes of defects found by this harness. A failing case is re-decoded with one class excluded at a time: when the
 // failure disappears the failure key names the class ("miscompiled:<class>"); a class whose key is a listed known finding is
 // excluded by construction (and counted) so that the search continues.
-enum { EX_RMNARROW, EX_WOPART, EX_CMPXCHG, EX_BTMEM, EX_AND0, EX_RO32, EX_KMOVW, EX_JTCLOBBER, EX_COUNT_ };
-const char* const kExName[EX_COUNT_] = { "rm-narrow-write", "same-reg-wo-partial", "cmpxchg-accumulator", "bt-mem-reg-offset", "and-zero-read-only", "same-reg-ro-zero-extend", "kmovw-gp-mem", "jump-table-target-clobbered" };
+enum { EX_RMNARROW, EX_WOPART, EX_CMPXCHG, EX_BTMEM, EX_AND0, EX_RO32, EX_KMOVW, EX_JTCLOBBER, EX_ORMEM, EX_COUNT_ };
+const char* const kExName[EX_COUNT_] = { "rm-narrow-write", "same-reg-wo-partial", "cmpxchg-accumulator", "bt-mem-reg-offset", "and-zero-read-only", "same-reg-ro-zero-extend", "kmovw-gp-mem", "jump-table-target-clobbered", "or-mem-all-ones" };
 struct Excl { bool on[EX_COUNT_] = {}; };
 
 // ------------------------------------------------------------------------------------------------
@@ -481,7 +482,7 @@ void Lower::lower(const vh::Op& op, int hk, Node& node) {
       for (int i = 0; sig[1 + i]; i++) {
         int r = d.gp(); int64_t im = d.imm(); int isimm = d.u(5) == 0;
         Opnd a;
-        if (sig[1 + i] == 'x') a = Opnd::V(umod(r + im, P.nv));
+        if (sig[1 + i] == 'x') a = Opnd::V(umod(int64_t((uint64_t(r) + uint64_t(im)) & 0xFFFF), P.nv));
         else if (isimm) a = Opnd::I(sig[1 + i] == 'd' ? int64_t(uint32_t(im)) : im);
         else if (sig[1 + i] == 'q' && ty(r) != 64) { if (P.idx64.empty()) a = Opnd::I(im); else a = Opnd::R(P.idx64[size_t(r) % P.idx64.size()]); }
         else a = Opnd::R(r);
@@ -498,12 +499,13 @@ void Lower::lower(const vh::Op& op, int hk, Node& node) {
 void Lower::fix(MOp& m) {
   auto is_reg = [](const Opnd& o) { return o.t == T_REG; };
   bool same01 = is_reg(m.o[0]) && is_reg(m.o[1]) && m.o[0].r == m.o[1].r;
-  if (ex.on[EX_CMPXCHG] && m.k == M_CMPXCHG) { m.k = M_ALU; m.sub = A_ADD; m.o[2] = Opnd(); P.n_excluded++; }
-  if (ex.on[EX_KMOVW] && m.k == M_KOP && m.sub == KO_GK) { m.sub = KO_KK; m.o[1] = m.o[0]; P.n_excluded++; }
-  if (ex.on[EX_BTMEM] && m.k == M_BT && is_reg(m.o[1])) { m.o[1] = Opnd::I(7); P.n_excluded++; }
-  if (ex.on[EX_AND0] && m.k == M_ALU && m.sub == A_AND && m.o[1].t == T_IMM && m.o[1].imm == 0 && is_reg(m.o[0])) { m.sub = A_MOV; P.n_excluded++; }
-  if (ex.on[EX_WOPART] && m.k == M_ALU && (m.sub == A_XOR || m.sub == A_SUB) && same01 && m.w < 32) { m.sub = A_MOV; m.o[1] = Opnd::I(0); P.n_excluded++; }
-  if (ex.on[EX_RO32] && m.k == M_ALU && (m.sub == A_AND || m.sub == A_OR) && same01 && m.w == 32 && ty(m.o[0].r) == 64) { m.w = 64; P.n_excluded++; }
+  if (ex.on[EX_CMPXCHG] && m.k == M_CMPXCHG) { m.k = M_ALU; m.sub = A_ADD; m.o[2] = Opnd(); P.n_excl[EX_CMPXCHG]++, P.n_excluded++; }
+  if (ex.on[EX_KMOVW] && m.k == M_KOP && m.sub == KO_GK) { m.sub = KO_KK; m.o[1] = m.o[0]; P.n_excl[EX_KMOVW]++, P.n_excluded++; }
+  if (ex.on[EX_ORMEM] && m.k == M_ALU && m.sub == A_OR && m.o[0].t == T_MEM && m.o[1].t == T_IMM && (m.o[1].imm == -1 || uint64_t(m.o[1].imm) == wmask(m.w))) { m.sub = A_MOV; P.n_excl[EX_ORMEM]++, P.n_excluded++; }
+  if (ex.on[EX_BTMEM] && m.k == M_BT && is_reg(m.o[1])) { m.o[1] = Opnd::I(7); P.n_excl[EX_BTMEM]++, P.n_excluded++; }
+  if (ex.on[EX_AND0] && m.k == M_ALU && m.sub == A_AND && m.o[1].t == T_IMM && m.o[1].imm == 0 && is_reg(m.o[0])) { m.sub = A_MOV; P.n_excl[EX_AND0]++, P.n_excluded++; }
+  if (ex.on[EX_WOPART] && m.k == M_ALU && (m.sub == A_XOR || m.sub == A_SUB) && same01 && m.w < 32) { m.sub = A_MOV; m.o[1] = Opnd::I(0); P.n_excl[EX_WOPART]++, P.n_excluded++; }
+  if (ex.on[EX_RO32] && m.k == M_ALU && (m.sub == A_AND || m.sub == A_OR) && same01 && m.w == 32 && ty(m.o[0].r) == 64) { m.w = 64; P.n_excl[EX_RO32]++, P.n_excluded++; }
   if (ex.on[EX_RMNARROW] && m.w == 32 && is_reg(m.o[0]) && ty(m.o[0].r) == 64) {
     bool rw = (m.k == M_ALU && (m.sub <= A_XOR || m.sub == A_XCHG || m.sub == A_XADD)) || m.k == M_UN || m.k == M_SHIFT || (m.k == M_BT && m.sub != B_BT) || m.k == M_CMPXCHG;
     if (rw) {
@@ -511,11 +513,11 @@ void Lower::fix(MOp& m) {
       for (int i = 1; i < 3; i++) { if (is_reg(m.o[i]) && ty(m.o[i].r) != 64 && !(m.k == M_SHIFT && i == 1)) all64 = false; if (m.o[i].t == T_MEM) all64 = false; }
       if (all64) { m.w = 64; for (int i = 1; i < 3; i++) if (m.o[i].t == T_IMM && m.k == M_ALU) m.o[i].imm = int64_t(int32_t(m.o[i].imm)); }
       else { Opnd s = (m.k == M_ALU && m.o[1].t != T_NONE) ? m.o[1] : Opnd::I(1); m.k = M_ALU; m.sub = A_MOV; m.o[1] = s; m.o[2] = Opnd(); }
-      P.n_excluded++;
+      P.n_excl[EX_RMNARROW]++, P.n_excluded++;
     }
   }
   // xchg with a memory/narrow register as second operand is symmetric
-  if (ex.on[EX_RMNARROW] && m.k == M_ALU && m.sub == A_XCHG && m.w == 32 && is_reg(m.o[1]) && ty(m.o[1].r) == 64) { m.sub = A_MOV; P.n_excluded++; }
+  if (ex.on[EX_RMNARROW] && m.k == M_ALU && m.sub == A_XCHG && m.w == 32 && is_reg(m.o[1]) && ty(m.o[1].r) == 64) { m.sub = A_MOV; P.n_excl[EX_RMNARROW]++, P.n_excluded++; }
 }
 
 inline int clampi(int64_t v, int lo, int hi) { return int(v < lo ? lo : v > hi ? hi : v); }
@@ -562,7 +564,7 @@ void decode_case(const vh::Case& c, const Excl& ex, Prog& P) {
       if (st.size() > 4) continue;
       Node n; n.hl = hk; Dec d(P, op);
       if (hk == H_LOOP) { n.kind = N_LOOP; n.n = 1 + d.u(3); n.flag = d.u(2); P.n_loops++; }
-      else if (hk == H_SWITCH) { n.kind = N_SWITCH; n.sel = d.gp(); n.n = 1 + d.u(4); n.flag = d.u(3) == 0; n.ntab = 4; P.n_switch++; if (ex.on[EX_JTCLOBBER]) { n.pad = 1; P.n_excluded++; } }
+      else if (hk == H_SWITCH) { n.kind = N_SWITCH; n.sel = d.gp(); n.n = 1 + d.u(4); n.flag = d.u(3) == 0; n.ntab = 4; P.n_switch++; if (ex.on[EX_JTCLOBBER]) { n.pad = 1; P.n_excl[EX_JTCLOBBER]++, P.n_excluded++; } }
       else { n.kind = hk == H_IF ? N_IF : N_IRR; n.cc = d.u(16); if (hk == H_IRR) { n.n = 1 + d.u(3); P.n_irr++; } else P.n_if++; L.out = &n; L.cond(d); }
       n.parts.emplace_back();
       st.push_back(std::move(n));
@@ -1434,7 +1436,7 @@ struct A64Emit {
   a64::Gp buf;
   struct Table { Label L; std::vector<Label> entries; };
   std::vector<Table> tables;
-  int n_lists = 0;
+  int n_lists = 0; bool no_imm_stack_arg = false, no_out_lists = false; int n_excluded = 0, n_excluded_lists = 0;
   A64Emit(a64::Compiler& c, const Prog& p) : cc(c), P(p) {}
   void E(Error e) { if (e != Error::kOk && first_err == Error::kOk) first_err = e; }
   a64::Gp gv(int r, int w) const { const a64::Gp& b = g[size_t(r)]; return (w == 64 && P.gty[size_t(r)] == 64) ? b.x() : b.w(); }
@@ -1476,6 +1478,7 @@ void A64Emit::list_op(const MOp& m) {
   Mem mp = a64::ptr(p);
   int kind = int((m.imm >> 3) & 3);   // 0 ld1/st1 with n registers, 1 ldN/stN, 2 tbl, 3 tbx
   bool store = (m.k == M_VMOV && m.sub == 2);
+  if (no_out_lists && !store && kind < 2 && x.size() >= 12) { store = true; n_excluded_lists++; }   // known defect: consecutive OUT registers under pressure
   n_lists++;
   if (kind >= 2) {
     Vec d = x[size_t(umod(base + 5, nv))], idx = x[size_t(umod(base + 7, nv))];
@@ -1611,7 +1614,9 @@ void A64Emit::emit_mop(const MOp& m) {
       if (!inv) break;
       for (int i = 0; i < m.nargs; i++) {
         const Opnd& a = m.args[i];
-        if (a.t == T_VEC) inv->set_arg(size_t(i), x[size_t(a.r)]); else if (a.t == T_IMM) inv->set_arg(size_t(i), Imm(a.imm)); else inv->set_arg(size_t(i), g[size_t(a.r)]);
+        if (a.t == T_VEC) inv->set_arg(size_t(i), x[size_t(a.r)]);
+        else if (a.t == T_IMM && !(no_imm_stack_arg && i >= 8 && ++n_excluded)) inv->set_arg(size_t(i), Imm(a.imm));
+        else inv->set_arg(size_t(i), g[size_t(a.t == T_REG ? a.r : 0)]);
       }
       if (m.o[0].t == T_VEC) inv->set_ret(0, x[size_t(m.o[0].r)]); else inv->set_ret(0, g[size_t(m.o[0].r)]);
       break;
@@ -1736,14 +1741,14 @@ void inspect_a64_lists(BaseBuilder* cb, PostRA& r) {
   }
 }
 
-void build_a64(BuiltA64& B, const Prog& P) {
+void build_a64(BuiltA64& B, const Prog& P, bool no_imm_stack_arg, bool no_out_lists) {
   Environment env(Arch::kAArch64);
   CpuFeatures feat; feat.add(CpuFeatures::ARM::kASIMD, CpuFeatures::ARM::kIDIVA);
   B.code.init(env, feat);
   B.code.set_error_handler(&B.eh);
   B.code.attach(&B.cc);
   B.cc.add_diagnostic_options(DiagnosticOptions::kRAAnnotate);
-  B.em.reset(new A64Emit(B.cc, P));
+  B.em.reset(new A64Emit(B.cc, P)); B.em->no_imm_stack_arg = no_imm_stack_arg; B.em->no_out_lists = no_out_lists;
   std::unordered_set<const BaseNode*> pre, had_mem;
   B.abort_sig = guarded([&] {
     B.stage = "emit";
@@ -1817,7 +1822,7 @@ static void check_x64(const Prog& P, JitRuntime& rt, const CpuFeatures& feat, in
   build_x86(B, P, Arch::kX64, feat, pressure, &rt);
   if (G.dump) { printf("%s", show_prog(P).c_str()); printf("--- x64 (pressure %d) ---\n%s\n", pressure, format_all(&B.cc).c_str()); }
   auto fail = [&](const std::string& key, const std::string& head, bool listing) { out.fail = true; out.key = key; out.head = head; if (listing) out.listing = format_all(&B.cc); };
-  if (B.err != Error::kOk) { fail(B.abort_sig ? "asmjit-assert:x64:" + assert_site(B.abort_text) : std::string("compile-error-on-valid-program:x64"), B.describe(), B.stage != "emit" && !B.abort_sig); return; }
+  if (B.err != Error::kOk) { fail(B.abort_sig ? "asmjit-assert:x64:" + assert_site(B.abort_text) : std::string("compile-error-on-valid-program:x64:") + DebugUtils::error_as_string(B.err), B.describe(), B.stage != "emit" && !B.abort_sig); return; }
   out.post = B.post;
   if (!B.post.virt_left.empty()) { fail("virtual-reg-left:x64", "after RA: " + B.post.virt_left, true); return; }
   static Input in, exp, act;
@@ -1907,8 +1912,9 @@ void vh_run(const vh::Case& c, vh::Ctx& ctx) {
         if (ex.on[i]) continue;
         Excl ex2 = ex; ex2.on[i] = true;
         std::unique_ptr<Prog> P2(new Prog()); decode_case(c, ex2, *P2);
-        if (P2->n_excluded == P.n_excluded) continue;
+        if (P2->n_excl[i] == 0) continue;
         Outcome o2; check_all_x64(*P2, rt, feat, ninputs, o2);
+        if (G.dump) printf("attribution: class %s -> %s %s\n", kExName[i], o2.fail ? o2.key.c_str() : "passes", o2.head.c_str());
         if (!o2.fail) { key = std::string("miscompiled:") + kExName[i]; out.head = "[" + out.key + "; disappears when the shape '" + kExName[i] + "' is excluded] " + out.head; break; }
       }
     }
@@ -1930,16 +1936,18 @@ void vh_run(const vh::Case& c, vh::Ctx& ctx) {
     std::unique_ptr<BuiltX86> B32(new BuiltX86());
     build_x86(*B32, P, Arch::kX86, feat, P.pressure, nullptr);
     ctx.cls("x86_32_builds");
-    if (B32->err != Error::kOk) { if (!report(ctx, B32->abort_sig ? "asmjit-assert:x86:" + assert_site(B32->abort_text) : std::string("compile-error-on-valid-program:x86"), B32->describe(), P, (B32->stage == "emit" || B32->abort_sig) ? nullptr : &B32->cc)) return; }
+    if (B32->err != Error::kOk) { if (!report(ctx, B32->abort_sig ? "asmjit-assert:x86:" + assert_site(B32->abort_text) : std::string("compile-error-on-valid-program:x86:") + DebugUtils::error_as_string(B32->err), B32->describe(), P, (B32->stage == "emit" || B32->abort_sig) ? nullptr : &B32->cc)) return; }
     else if (!B32->post.virt_left.empty()) { if (!report(ctx, "virtual-reg-left:x86", "after RA: " + B32->post.virt_left, P, &B32->cc)) return; }
     else if (B32->post.inserted()) ctx.cls("x86_32_ra_inserted");
   }
   if (!G.noa64) {
     std::unique_ptr<BuiltA64> BA(new BuiltA64());
-    build_a64(*BA, P);
+    build_a64(*BA, P, ctx.is_known("asmjit-assert:a64:a64rapass.cpp:528"), ctx.is_known("asmjit-assert:a64:ralocal.cpp:1038"));
+    if (BA->em && BA->em->n_excluded_lists) ctx.known_excluded("excluded-a64-list-load-under-pressure");
+    if (BA->em && BA->em->n_excluded) ctx.known_excluded("excluded-a64-immediate-stack-argument");
     ctx.cls("a64_builds"); if (BA->em && BA->em->n_lists) ctx.cls("a64_has_register_list", uint64_t(BA->em->n_lists));
     if (G.dump) printf("--- a64 ---\n%s\n", format_all(&BA->cc).c_str());
-    if (BA->err != Error::kOk) { if (!report(ctx, BA->abort_sig ? "asmjit-assert:a64:" + assert_site(BA->abort_text) : std::string("compile-error-on-valid-program:a64"), BA->describe(), P, (BA->stage == "emit" || BA->abort_sig) ? nullptr : &BA->cc)) return; }
+    if (BA->err != Error::kOk) { if (!report(ctx, BA->abort_sig ? "asmjit-assert:a64:" + assert_site(BA->abort_text) : std::string("compile-error-on-valid-program:a64:") + DebugUtils::error_as_string(BA->err), BA->describe(), P, (BA->stage == "emit" || BA->abort_sig) ? nullptr : &BA->cc)) return; }
     else {
       if (!BA->post.virt_left.empty()) { if (!report(ctx, "virtual-reg-left:a64", "after RA: " + BA->post.virt_left, P, &BA->cc)) return; }
       if (!BA->post.bad_list_inst.empty()) { if (!report(ctx, "list-not-consecutive:a64:" + BA->post.bad_list_inst, "after RA: " + BA->post.bad_list_text, P, &BA->cc)) return; }
